@@ -122,7 +122,7 @@ theorem step_reduce (env : Env) (nt : Ctx → Ctx × Outcome Tok) (c : Cfg) (s p
         (some ((reduceSpan (c.stack.take len) c.ctx.span).s.pos,
                (reduceSpan (c.stack.take len) c.ctx.span).e.pos -
                (reduceSpan (c.stack.take len) c.ctx.span).s.pos))
-        (nt { c.ctx with span := c.ctx.span, state := s' }) (some c.ctx.lay) := by
+        (nt { c.ctx with span := c.ctx.span, state := s' }) (some (c.ctx.lay, c.ctx.pos.pos)) := by
   unfold step
   simp only [htop, hcell, hlen, ↓reduceIte, hfrom, hpr, hgoto, hres]
 
@@ -175,7 +175,7 @@ theorem step_accept (env : Env) (nt : Ctx → Ctx × Outcome Tok) (c : Cfg) (s :
 /-- outcome of the step `c ⟶` (stack, res, … , lex in `ctx1`) against the token-level successor `tc'` -/
 theorem lift_sim (env : Env) (he : CharEnv env) (hc : SingleChar env.g env.t) (fuel : Nat)
     (hist : List Tok) (stack : List StackItem) (res : List Tree) (slice : Option Slice)
-    (keep : Option (Option Slice)) (ctx1 : Ctx) (tc' : TCfg)
+    (keep : Option (Option Slice × Nat)) (ctx1 : Ctx) (tc' : TCfg)
     (hstates : stack.map (·.state) = tc'.c.stack.map (·.1) ++ [0])
     (hres : res.length = tc'.c.stack.length)
     (hstate : ctx1.state = topOf 0 tc'.c.stack)
@@ -201,7 +201,8 @@ theorem lift_sim (env : Env) (he : CharEnv env) (hc : SingleChar env.g env.t) (f
       · simp only; rw [hpos]; exact hle
       · simp only; rw [hpos]; exact hrest
       · simp only; rw [hpos]
-    | some l =>
+    | some lp =>
+      obtain ⟨l, p0⟩ := lp
       refine ⟨_, rfl, ⟨hstates, hres, ?_, ?_, ?_, ?_, hcell⟩⟩
       · simp only; exact hst
       · simp only; rw [hpos]; exact hle
